@@ -80,7 +80,9 @@ def run_case(case):
         nodes.append({"p": e, "t": "f", "c": "content\n" if k == "file" else "",
                       "m": case["mode"], "mt": case["mt"]})
     elif k == "dir":
-        nodes.append({"p": e, "t": "d", "m": 0o750, "mt": case["mt"]})
+        # (all permission patterns, 0000 included: the mode of a restored directory is part of "exactly")
+        nodes.append({"p": e, "t": "d", "m": {0o644: 0o750, 0o600: 0o700, 0o755: 0o555, 0o400: 0o111,
+                                                0o000: 0o000}.get(case["mode"], 0o750), "mt": case["mt"]})
     elif k == "fifo":
         nodes.append({"p": e, "t": "p", "m": 0o640, "mt": case["mt"]})
     elif k == "tree":
